@@ -23,6 +23,28 @@ units += main_unit("C06_numeric", "harness/C06_numeric.cpp", quick=4, thorough=8
 units += main_unit("C06_moveonly", "harness/C06_moveonly.cpp", quick=4, thorough=8)
 units.append(Unit("C06_probe_stable_sort_moveonly", "harness/C06_moveonly.cpp", defs=["-DC06_MO_PART=2"],
                   flavours={"quick": ["asan-cc"], "thorough": ["asan-cc"]}, shards={"quick": 2, "thorough": 4}))
+
+# second pass with predicate / comparator / operator== / operator< results that are boolean-testable but not bool
+# (int masks 4, -1, 2048, -8 and a class with a conversion to bool); smaller scope, pointer + weakest iterator kinds
+def truthy_unit(name, src, part=None):
+    defs = ["-DC06_TRUTHY=1"] + ([] if part is None else [f"-DC06_PART={part}"])
+    return Unit(name + "_truthy", src, defs=defs, flavours={"quick": ["asan-cc"], "thorough": ["asan-cc"]}, shards={"quick": 4, "thorough": 8})
+
+
+units.append(truthy_unit("C06_nonmod_a", "harness/C06_nonmod.cpp", 1))
+units.append(truthy_unit("C06_nonmod_b", "harness/C06_nonmod.cpp", 2))
+units.append(truthy_unit("C06_mod_a", "harness/C06_mod.cpp", 1))
+units.append(truthy_unit("C06_mod_b", "harness/C06_mod.cpp", 2))
+units.append(truthy_unit("C06_sort", "harness/C06_sort.cpp"))
+units.append(truthy_unit("C06_set", "harness/C06_set.cpp"))
+# arithmetic element types through raw pointers (type-keyed fast paths): signed char/char, unsigned char/short, float
+for k, nm in {1: "char", 2: "uchar_short", 3: "float"}.items():
+    units.append(Unit("C06_types_" + nm, "harness/C06_types.cpp", defs=[f"-DC06_TYPES_PART={k}", "-DC06_SMALL=1"],
+                      flavours={"quick": ["asan-cc"], "thorough": ["asan-cc", "plain-cc"]}, shards={"quick": 4, "thorough": 8}))
+# element type with its own ADL swap (call counts / marks / no moves), and a swappable-only element type (probe)
+units.append(Unit("C06_adlswap", "harness/C06_adlswap.cpp", flavours={"quick": ["asan-cc"], "thorough": ["asan-cc"]}, shards={"quick": 4, "thorough": 8}))
+units.append(Unit("C06_probe_swap_only", "harness/C06_adlswap.cpp", defs=["-DC06_ADL_PART=2"],
+                  flavours={"quick": ["asan-cc"], "thorough": ["asan-cc"]}, shards={"quick": 2, "thorough": 4}))
 for k, nm in PROBES.items():
     units.append(Unit("C06_probe_" + nm, "harness/C06_probe.cpp", defs=[f"-DC06_PROBE={k}"],
                       flavours={"quick": ["asan-cc"], "thorough": ["asan-cc"]}, shards={"quick": 2, "thorough": 4}))
@@ -48,5 +70,6 @@ P = dict(
     floor={"quick": 3000000, "thorough": 30000000},
     assumptions=["libstdc++ 12 <algorithm>/<numeric> are a correct reference for the specified part of each result",
                  "gcc 12 ASan/UBSan report every out-of-block access adjacent to an exact-size heap block",
-                 "element types: a small copyable struct (key, tag), a move-only twin for the permuting algorithms, long long/int/unsigned char for numeric; other element types are not exercised"],
+                 "element types: a small copyable struct (key, tag), a move-only twin, a type with its own ADL swap, a swappable-only type, signed char/char/unsigned char/short/float through raw pointers, long long/int/unsigned char for numeric; other element types are not exercised",
+                 "predicate results: bool, and in the *_truthy units int masks (incl. negative) and a class implicitly convertible to bool (C++20 boolean-testable); explicit-only conversions are outside the standard's requirement and not exercised"],
 )
